@@ -273,7 +273,7 @@ func compileComments(comments []*commentBlock, node nodeContainer) []*commentBlo
 	nodes := node.getSubnodes()
 	// It is very important for this purpose to evaluate the nodes in the order
 	// they appeared in the AST.
-	sort.Sort(nodesSortByLine(nodes))
+	sort.Stable(nodesSortByLine(nodes))
 	for _, n := range nodes {
 		comments = attachComments(comments, n.getNode())
 		comments = compileComments(comments, n)
